@@ -21,7 +21,7 @@ ASSUMPTIONS = ["covering bands: rectangles 1e-6 rel (LP certificates), ellipsoid
                "Auer: a round is judged only if every first-stage membership is decisive"]
 N = {"quick": 190, "thorough": 6000}
 VARS = ["PaVeBa", "PaVeBaGP-IH", "PaVeBaGP-DE", "PartialGP-rect", "PartialGP-ell", "VOGP", "EpsilonPAL", "Auer", "Auer-emp", "Auer-emp", "VOGP"]
-REQUIRE = {"quick": {"must_admit": 300, "must_hold": 1500, "must_useful": 50, "must_not_useful": 50, "auer_held_back": 5, "runs": 150,
+REQUIRE = {"quick": {"must_admit": 300, "must_hold": 1500, "must_useful": 50, "must_not_useful": 50, "auer_held_back": 5, "runs": 150, "vogp_ad_runs": 10,
                      **{f"must_admit::{v}": 8 for v in set(VARS)}, **{f"must_hold::{v}": 20 for v in set(VARS)}}}
 TIMEOUT = {"quick": 1500, "thorough": 7200}
 
@@ -58,7 +58,21 @@ def directed_d9(mon):
                 runchecks.check_admit(mon, tr, st)
 
 
+def ad_run(mon, rng):
+    """VOGP_AD on a user-defined continuous problem (real GP): the same reference transition on tree nodes"""
+    case, order = runs.make_ad_case(rng)
+    case["max_rounds"] = 60
+    tr = runs.run_ad_case(case, order, mon)
+    mon.count("runs")
+    mon.count("vogp_ad_runs")
+    for st in tr.steps:
+        if st["crash"] is None and not st.get("after_completion"):
+            runchecks.check_admit(mon, tr, st)
+
+
 def shard(mon, tier, rng, shard_no, nshards):
+    for _ in range(1 if tier == "quick" else 6):
+        ad_run(mon, rng)
     if shard_no == 0:
         directed_d9(mon)
     n = max(len(VARS), N[tier] // nshards)
